@@ -80,6 +80,78 @@ def sub_multiset(xs, ys):
     return True
 
 
+def witness_rerun_fails(out):
+    """Model-free lock-step witness (the generator's commands are idempotent, so Build.v cannot express it): dependency //:a is a
+    cache hit whose blob is lost; its dependants were edited and have to run; the command of //:a cannot be re-run (it refuses to
+    run twice in one checkout).  Both modes must end the same way: //:a fails, no dependant's command starts, exit non-zero --
+    in particular, under minimal, a dependant must never run without the output of //:a because ANOTHER dependant's attempt to
+    re-make it already failed."""
+    import os, shutil, subprocess
+    grog = vlib.build_grog()
+    base = os.path.join(vlib.scratch(), "rerunfails")
+    shutil.rmtree(base, ignore_errors=True)
+    evals = 0
+    for ndep, workers, kind in ((2, 2, "file"), (3, 1, "file"), (2, 2, "dir"), (1, 1, "file"), (3, 4, "dir")):
+        obs = {}
+        for mode in ("all", "minimal"):
+            d = os.path.join(base, "%d-%d-%s-%s" % (ndep, workers, kind, mode))
+            ws, root = os.path.join(d, "ws"), os.path.join(d, "root")
+            os.makedirs(ws); os.makedirs(root)
+            open(os.path.join(ws, "grog.toml"), "w").write('load_outputs = "%s"\nnum_workers = %d\n' % (mode, workers))
+            out_a = "dir::gen" if kind == "dir" else "a.txt"
+            path_a = "gen/a.txt" if kind == "dir" else "a.txt"
+            mk_a = ("mkdir gen && cp a.in gen/a.txt" if kind == "dir" else "test ! -e ran.flag || exit 7; touch ran.flag; cp a.in a.txt")
+            targets = [{"name": "a", "inputs": ["a.in"], "outputs": [out_a], "command": 'echo a >> "$CMDLOG"; ' + mk_a}]
+            for k in range(ndep):
+                targets.append({"name": "b%d" % k, "inputs": ["b%d.in" % k], "dependencies": [":a"], "outputs": ["b%d.txt" % k],
+                                "command": 'echo b%d >> "$CMDLOG"; test -f %s || echo b%d >> "$MISSLOG"; cat %s b%d.in > b%d.txt' % (k, path_a, k, path_a, k, k)})
+            json.dump({"targets": targets}, open(os.path.join(ws, "BUILD.json"), "w"))
+            content = "content of a, long enough to be found again in the cas\n"
+            open(os.path.join(ws, "a.in"), "w").write(content)
+            for k in range(ndep):
+                open(os.path.join(ws, "b%d.in" % k), "w").write("v1\n")
+            env = bl.grog_env(root, os.path.join(d, "trace"), {"CMDLOG": os.path.join(d, "cmd.log"), "MISSLOG": os.path.join(d, "miss.log")})
+            env.pop("GROG_NUM_WORKERS", None)
+            run1 = lambda: subprocess.run([grog, "build"], cwd=ws, env=env, stdout=subprocess.PIPE, stderr=subprocess.PIPE, text=True, timeout=120)
+            p1 = run1()
+            # fresh checkout of the outputs, both leaves edited, the cache loses the blob of a's file
+            shutil.rmtree(os.path.join(ws, "gen"), ignore_errors=True)
+            for f in ["a.txt"] + ["b%d.txt" % k for k in range(ndep)]:
+                if os.path.exists(os.path.join(ws, f)):
+                    os.unlink(os.path.join(ws, f))
+            for k in range(ndep):
+                open(os.path.join(ws, "b%d.in" % k), "w").write("v2\n")
+            lost = 0
+            for dp, dn, fn in os.walk(root):
+                if os.path.basename(dp) == "cas":
+                    for f in fn:
+                        q = os.path.join(dp, f)
+                        if os.path.getsize(q) == len(content) and open(q).read() == content:
+                            os.unlink(q); lost += 1
+            for f in ("cmd.log", "miss.log"):
+                open(os.path.join(d, f), "w").close()
+            p2 = run1()
+            rd = lambda f: sorted(set(open(os.path.join(d, f)).read().split()))
+            obs[mode] = {"rc1": p1.returncode, "rc2": p2.returncode, "executed": rd("cmd.log"), "ran_without_dependency_output": rd("miss.log"),
+                         "blobs_lost": lost, "out2": (p2.stdout + p2.stderr)[-400:]}
+        evals += 1
+        a, m = obs["all"], obs["minimal"]
+        desc = {"targets": "//:a (%s output, command refuses to run a second time in one checkout) <- %d dependants" % (kind, ndep), "num_workers": workers,
+                "history": "build; remove every output from the workspace; edit every dependant's input; delete the CAS blob of a's file; build",
+                "observed": obs}
+        if a["rc1"] or m["rc1"] or a["blobs_lost"] != 1 or m["blobs_lost"] != 1:
+            out.violation("rerun-fails witness: set-up failed (first build rc %s/%s, blobs lost %s/%s)" % (a["rc1"], m["rc1"], a["blobs_lost"], m["blobs_lost"]),
+                          desc, no_input=True)
+        elif (a["rc2"] == 0) != (m["rc2"] == 0):
+            out.violation("a dependency that cannot be restored nor re-made: mode all exits %s, mode minimal exits %s" % (a["rc2"], m["rc2"]), desc)
+        elif not set(m["executed"]) <= set(a["executed"]):
+            out.violation("a dependency that cannot be restored nor re-made: mode all runs the commands %s, mode minimal %s" % (a["executed"], m["executed"]), desc)
+        elif set(m["ran_without_dependency_output"]) - set(a["ran_without_dependency_output"]):
+            out.violation("under load_outputs=minimal the commands of %s ran without the output of their dependency //:a" % m["ran_without_dependency_output"], desc)
+    shutil.rmtree(base, ignore_errors=True)
+    return evals
+
+
 def run(out, tier):
     n = 22 if tier == "quick" else 500
     r = vlib.Rng(vlib.seed() * 7919 + 15)
@@ -109,7 +181,7 @@ def run(out, tier):
     batch = hc.run_batch(plans, vlib.seed())
     hc.check_plan_errors(batch)
     findings = {f["class"]: f for f in vlib.known_findings("C15")}
-    evals = 0
+    evals = witness_rerun_fails(out)
     for k in range(0, len(batch), 2):
         (na, ha, _, ma), (nm, hm, _, mm) = batch[k], batch[k + 1]
         # builds that follow a cache fault: mode all has to re-execute every selected target whose outputs it cannot restore,
